@@ -20,7 +20,7 @@ for line in sys.stdin:
     req = json.loads(line)
     out, err = io.StringIO(), io.StringIO()
     try:
-        rc = cwltool.main.main(argsl=["--quiet", "--outdir", req["outdir"], req["wf"], req["job"]], stdout=out, stderr=err)
+        rc = cwltool.main.main(argsl=["--quiet", "--enable-ext", "--outdir", req["outdir"], req["wf"], req["job"]], stdout=out, stderr=err)
     except SystemExit as e:
         rc = e.code if isinstance(e.code, int) else 1
     except BaseException as e:
